@@ -533,6 +533,10 @@ func accessors(fork string) map[string]accessor {
 	}
 }
 
+// the lists that hold one element per validator: AddValidator must grow each by exactly one
+var perValidator = map[string]bool{"validators": true, "balances": true, "previous_epoch_participation": true,
+	"current_epoch_participation": true, "inactivity_scores": true}
+
 func (e *env) fields(base common.BeaconState) ([]*fieldInfo, error) {
 	acc := accessors(e.fork)
 	rawJSON, _, err := e.project(&handle{st: base})
@@ -598,6 +602,9 @@ func (e *env) fields(base common.BeaconState) ([]*fieldInfo, error) {
 			}
 			if a.fill != "" {
 				ops = append(ops, "fill")
+			}
+			if perValidator[f.Name] && hasMethod(base, "AddValidator") {
+				ops = append(ops, "addvalidator")
 			}
 		}
 		fi.Ops = ops
@@ -708,6 +715,9 @@ type replayer struct {
 	poisoned map[string]bool
 	lastStep *step
 	desync   map[string]bool
+	// everything the replayer (= the caller) passed to the library in this behaviour: scribbled over by "scribble" steps
+	args []reflect.Value
+	avKey int
 }
 
 // dev records a deviation.  A (handle, field) that has deviated once is out of sync with the model for the rest of
@@ -1312,7 +1322,29 @@ func (r *replayer) checkRoots(hd string, h *handle, raw interface{}, op string) 
 	}
 	structRoot := out[0].Interface().(tree.Root)
 	if viewRoot != rebuiltRoot {
-		r.dev("C05", "stale_root", "", op, hd, "view root %x after the history, %x when rebuilt from its own encoding", viewRoot[:], rebuiltRoot[:])
+		// which fields carry a cached hash that differs from the hash of their own content?
+		type getter interface {
+			Get(i uint64) (view.View, error)
+		}
+		a, aok := h.st.(getter)
+		b, bok := rebuilt.(getter)
+		named := false
+		if aok && bok {
+			for _, fi := range r.flds {
+				va, ea := a.Get(uint64(fi.idx))
+				vb, eb := b.Get(uint64(fi.idx))
+				if ea != nil || eb != nil {
+					continue
+				}
+				if ra, rb := va.HashTreeRoot(r.e.hFn), vb.HashTreeRoot(r.e.hFn); ra != rb {
+					named = true
+					r.dev("C05", "stale_root", fi.Name, op, hd, "after %s: cached root of %s is %x, its content hashes to %x (state root %x, rebuilt %x)", op, fi.Name, ra[:], rb[:], viewRoot[:], rebuiltRoot[:])
+				}
+			}
+		}
+		if !named {
+			r.dev("C05", "stale_root", "", op, hd, "view root %x after the history, %x when rebuilt from its own encoding", viewRoot[:], rebuiltRoot[:])
+		}
 	}
 	if structRoot != rebuiltRoot {
 		r.dev("C05", "struct_view_root_mismatch", "", op, hd, "struct root %x, rebuilt view root %x", structRoot[:], rebuiltRoot[:])
@@ -1368,6 +1400,7 @@ func (r *replayer) typedArg(fi *fieldInfo, id int, elem bool) (reflect.Value, in
 	if err != nil {
 		die("%v", err)
 	}
+	r.args = append(r.args, v)
 	return v, js
 }
 
@@ -1390,6 +1423,7 @@ func (r *replayer) setterArg(obj interface{}, method string, val reflect.Value) 
 	if want.Kind() == reflect.Ptr && val.Type().AssignableTo(want.Elem()) {
 		p := reflect.New(want.Elem())
 		p.Elem().Set(val)
+		r.args = append(r.args, p)
 		return p, nil
 	}
 	if val.Type().ConvertibleTo(want) && want.Kind() != reflect.Ptr && want.Kind() != reflect.Interface {
@@ -1398,6 +1432,7 @@ func (r *replayer) setterArg(obj interface{}, method string, val reflect.Value) 
 	// a view is wanted: the struct form offers View / View(spec)
 	p := reflect.New(val.Type())
 	p.Elem().Set(val)
+	r.args = append(r.args, p) // the struct a view argument is converted from stays with the caller
 	if hasMethod(p.Interface(), "View") {
 		out, err := callRec(p.Interface(), "View", r.e.spec)
 		if err != nil {
@@ -1573,6 +1608,10 @@ func (r *replayer) apply(s *step) {
 		}
 	case "advance":
 		r.advance(s, h)
+	case "addvalidator":
+		r.addValidator(s, h)
+	case "scribble":
+		r.scribble(s)
 	default:
 		die("unknown op %s", s.Op)
 	}
@@ -1595,6 +1634,7 @@ func (r *replayer) storeWhole(s *step, h *handle, fi *fieldInfo, a accessor) {
 		}
 	}
 	if s.Op == "setall" {
+		r.args = append(r.args, newVal)
 		arg, err := r.setterArg(h.st, a.setAll, newVal)
 		if err != nil {
 			die("%v", err)
@@ -1688,6 +1728,148 @@ func (r *replayer) touchValidator(s *step, h *handle, fi *fieldInfo, a accessor,
 	}
 	if !reflect.DeepEqual(got, canon(exp2)) {
 		r.dev("C15", "subfield_setter_wrong", fi.Name, s.Op, s.H, "validator %d after sub-field setters (%s): %s, expected %s", idx, which, short(got), short(exp2))
+	}
+}
+
+// addValidator drives the compound setter state.AddValidator and checks its direct effects against the arguments: every
+// per-validator list grows by exactly one, the new validator carries the given key and credentials, the new balance is
+// the given one, the new participation flags and inactivity score are zero.  (The comparison of the full post-state with
+// the model, every other field and handle included, follows in checkAll.)
+func (r *replayer) addValidator(s *step, h *handle) {
+	before, _, err := r.e.project(h)
+	if err != nil {
+		r.dev("C15", "projection_failed", "", s.Op, s.H, "%v", err)
+		return
+	}
+	r.avKey++
+	var raw [32]byte
+	binary.BigEndian.PutUint64(raw[24:], uint64(1000+r.avKey*16+s.C))
+	var sk blsu.SecretKey
+	if err := sk.Deserialize(&raw); err != nil {
+		die("key: %v", err)
+	}
+	pk, err := blsu.SkToPk(&sk)
+	if err != nil {
+		die("key: %v", err)
+	}
+	pub := common.BLSPubkey(pk.Serialize())
+	var creds common.Root
+	r.e.rng("addvalidator-creds", s.C).Read(creds[:])
+	bfi := r.byName["balances"]
+	balV, balJS := r.typedArg(bfi, s.V, true)
+	bal := common.Gwei(balV.Uint())
+	if err := func() (err error) {
+		defer func() {
+			if rec := recover(); rec != nil {
+				err = fmt.Errorf("panic: %v", rec)
+			}
+		}()
+		return h.st.AddValidator(r.e.spec, pub, creds, bal)
+	}(); err != nil {
+		r.dev("C15", "accessor_error", "validators", s.Op, s.H, "AddValidator: %v", err)
+		return
+	}
+	after, _, err := r.e.project(h)
+	if err != nil {
+		r.dev("C15", "projection_failed", "", s.Op, s.H, "%v", err)
+		return
+	}
+	for _, fi := range r.flds {
+		if !perValidator[fi.Name] {
+			continue
+		}
+		b, _ := before[fi.Name].([]interface{})
+		a, _ := after[fi.Name].([]interface{})
+		r.stats["addvalidator_list|"+fi.Name]++
+		if len(a) != len(b)+1 {
+			r.dev("C15", "addvalidator_wrong", fi.Name, s.Op, s.H, "AddValidator: %s had %d elements, now has %d (expected %d)", fi.Name, len(b), len(a), len(b)+1)
+			continue
+		}
+		last := a[len(a)-1]
+		switch fi.Name {
+		case "validators":
+			m, _ := last.(map[string]interface{})
+			if !reflect.DeepEqual(m["pubkey"], norm(pub)) || !reflect.DeepEqual(m["withdrawal_credentials"], norm(creds)) {
+				r.dev("C15", "addvalidator_wrong", fi.Name, s.Op, s.H, "AddValidator: new validator is %s, given pubkey %s credentials %s", short(last), pub, creds)
+			}
+		case "balances":
+			if !reflect.DeepEqual(last, balJS) {
+				r.dev("C15", "addvalidator_wrong", fi.Name, s.Op, s.H, "AddValidator: new balance is %s, given %s", short(last), short(balJS))
+			}
+		default:
+			if !reflect.DeepEqual(last, "0") {
+				r.dev("C15", "addvalidator_wrong", fi.Name, s.Op, s.H, "AddValidator: new element of %s is %s, expected 0", fi.Name, short(last))
+			}
+		}
+	}
+}
+
+// scribble: the caller overwrites every argument it passed in earlier steps, and every value the read API gives back
+// (Raw(), struct-returning getters, bulk slices).  The model says this changes nothing: checkAll then compares every live
+// handle with the unchanged store and the view root with the root rebuilt from the state's own encoding.
+func (r *replayer) scribble(s *step) {
+	for _, a := range r.args {
+		r.stats["scribbled_argument_cells"] += sszreg.Scribble(a)
+	}
+	r.stats["scribbled_arguments"] += len(r.args)
+	r.args = nil
+	names := make([]string, 0, len(r.h))
+	for hd := range r.h {
+		names = append(names, hd)
+	}
+	sort.Strings(names)
+	for _, hd := range names {
+		h := r.h[hd]
+		func() {
+			defer func() {
+				if rec := recover(); rec != nil {
+					r.dev("C15", "getter_error", "", s.Op, hd, "reading for the scribble step panicked: %v", rec)
+				}
+			}()
+			if out, err := callRec(h.st, "Raw", r.e.spec); err == nil {
+				r.stats["scribbled_results|Raw"]++
+				r.stats["scribbled_result_cells"] += sszreg.Scribble(out[0])
+			}
+			for _, fi := range r.flds {
+				a := r.acc[fi.Name]
+				if a.get == "" {
+					continue
+				}
+				out, err := callRec(h.st, a.get, r.e.spec)
+				if err != nil {
+					continue
+				}
+				res := out[0]
+				if hasMethod(res.Interface(), "Raw") { // a sub-view: what Raw() hands out belongs to the caller
+					o2, err := callRec(res.Interface(), "Raw", r.e.spec)
+					if err != nil {
+						continue
+					}
+					res = o2[0]
+				} else if sv, ok := res.Interface().(*common.SyncCommitteeView); ok {
+					if pv, err := sv.Pubkeys(); err == nil {
+						if pubs, err := pv.Flatten(); err == nil {
+							res = reflect.ValueOf(pubs)
+						}
+					}
+				}
+				if res.Kind() != reflect.Ptr && res.Kind() != reflect.Slice { // a plain value: make it addressable
+					p := reflect.New(res.Type())
+					p.Elem().Set(res)
+					res = p
+				}
+				if n := sszreg.Scribble(res); n > 0 {
+					r.stats["scribbled_results|"+fi.Name]++
+					r.stats["scribbled_result_cells"] += n
+				}
+			}
+			if bals, err := h.st.Balances(); err == nil {
+				if all, err := bals.AllBalances(); err == nil {
+					r.stats["scribbled_results|AllBalances"]++
+					r.stats["scribbled_result_cells"] += sszreg.Scribble(reflect.ValueOf(all))
+				}
+			}
+		}()
 	}
 }
 
@@ -1856,6 +2038,7 @@ func (r *replayer) probeSubViewSetters(hd string, h *handle) {
 				r.dev("C15", "subview_setter_error", fi.Name, "probe-set", hd, "%T.%s: %v", sv, name, err)
 				continue
 			}
+			r.stats["subview_setter_args_scribbled"] += sszreg.Scribble(arg) + sszreg.Scribble(val)
 			after, _, err := r.e.project(cp)
 			if err != nil {
 				r.dev("C15", "projection_failed", fi.Name, "probe-set", hd, "%v", err)
